@@ -2,6 +2,7 @@ import Restli.Model.TreeReader
 import Restli.Proofs.NoPanic
 import Restli.Proofs.MissingSpec
 import Restli.Proofs.AnyReader
+import Restli.Proofs.QueryParams
 /-! # C06 — required-field accounting and unknown-field tolerance
 
 Every reader finishes a record through `finishRecord` (the model of `readRecord`'s epilogue in
@@ -149,6 +150,34 @@ theorem c06_top_level_outcome (c : TCfg) (hc : SemClean c.sem) (n : TName) (incs
        else .err (.missing (specMissing c [] (.ref n) (.obj kvs))
          (.record (fillRequired c.env (allFields c.env (includeFuel c.env) n) r.1)))) :=
   read_top_record c hc n incs own hfind kvs r m0 hent
+
+/-- **the query-parameters reader** (`QueryParamsReader.ReadRecord` driving the generated
+`UnmarshalField`, one ROR2 reader per parameter) on parameters whose values are renderings of
+raw-token trees and whose names need no unescaping **is the tree reader, at top level, on the object
+whose members are the parameters**: the fourth reader is an instance of the same reader too -/
+theorem c06_query_reader_is_the_tree_reader (env : Env) (n : TName) (incs : List TName) (own : List Field)
+    (hfind : env.find n = some (.record incs own)) (ps : List (Bytes × Json.JVal))
+    (hps : ∀ e ∈ ps, RawWF e.2 ∧ PlainKey e.1) :
+    decodeQueryParams env n (ps.map (fun e => (e.1, renderRaw e.2))) =
+      liftT (treeRead (tcOf (qpCfg env)) true [] (.ref n) (.obj ps)) qpEnd :=
+  decodeQueryParams_eq_tree env n incs own hfind ps hps
+
+/-- … hence its outcome, when the parameters decode, is the specification's: nothing missing ⇒ the
+record (own defaults filled); otherwise ONE error carrying exactly the specification's list — nested
+paths start with the parameter's name — and the partially filled record -/
+theorem c06_query_reader_outcome (env : Env) (n : TName) (incs : List TName) (own : List Field)
+    (hfind : env.find n = some (.record incs own)) (ps : List (Bytes × Json.JVal))
+    (hps : ∀ e ∈ ps, RawWF e.2 ∧ PlainKey e.1)
+    (r : List (Bytes × Value) × List Bytes) (m0 : List Bytes)
+    (hent : treeReadEntries (tcOf (qpCfg env)) [] (.record (allFields env (includeFuel env) n)) [] [] ps = .ok r m0) :
+    decodeQueryParams env n (ps.map (fun e => (e.1, renderRaw e.2))) =
+      (if specMissing (tcOf (qpCfg env)) [] (.ref n) (.obj ps) = [] then
+        .ok (.record (populateDefaults own (fillRequired env (allFields env (includeFuel env) n) r.1))) qpEnd
+       else .err (.missing (specMissing (tcOf (qpCfg env)) [] (.ref n) (.obj ps))
+         (.record (fillRequired env (allFields env (includeFuel env) n) r.1)))) := by
+  rw [decodeQueryParams_eq_tree env n incs own hfind ps hps,
+    read_top_record (tcOf (qpCfg env)) (ror2Sem_clean true) n incs own hfind ps r m0 hent]
+  split <;> simp [liftT, qpEnd, tcOf, qpCfg]
 
 /-- **the ROR2 cursor reader reports the same**: on the rendering of any well-formed raw-token tree,
 at any position inside a document, what it adds to the missing list is the specification's list
